@@ -63,17 +63,23 @@ def insert_ignorable(lines, rng, ignore_names):
            ["MASTER        0", "CONECT    1    2"]
 
 
-def insert_hydrogens(lines, rng, alts=(" ",)):
-    """Hydrogens inside their own residue, after one of its heavy atoms (alts: alternate-location labels to use)."""
+H_NAMES = ("H", "HA", "HB2", "HB3", "HG", "HG2", "HG3", "HG11", "HG12", "HG13", "HG21", "HG22", "HG23", "HD1", "HD11", "HD21",
+           "HD22", "HE", "HE1", "HE21", "HE22", "HH", "HH11", "HH12", "HH21", "HH2", "HZ1", "HZ2", "HZ3", "HN", "H1", "H2", "H3",
+           "HO", "HXT", "1HB", "2HG1", "3HD2", "H101", "H5'", "HO5'", "HN11", "HC1", "HS", "HM1")
+
+
+def insert_hydrogens(lines, rng, alts=(" ",), het=True):
+    """Hydrogens inside their own residue, after one of its heavy atoms, under the names found in real files (three- and
+    four-character names, leading digits, primes) - also inside hetero residues (alts: alternate-location labels to use)."""
     out = []
     n = 0
     for ln in lines:
         out.append(ln)
-        if C.is_atom(ln) and ln[:4] == "ATOM" and rng.random() < 0.15:
+        if C.is_atom(ln) and (ln[:4] == "ATOM" or het) and ln[17:20] != "HOH" and rng.random() < 0.15:
             r = pdbio.parse_line(ln)
             n += 1
-            out.append(pdbio.atom_line("ATOM", 8000 + n, "H%d" % (n % 9 + 1), alts[n % len(alts)], r.resn, r.chain, r.num, r.icode,
-                                       r.x + 700, r.y + 500, r.z - 300, elem="H"))
+            out.append(pdbio.atom_line(ln[:6].strip(), 8000 + n, H_NAMES[(n * 7 + rng.randrange(3)) % len(H_NAMES)], alts[n % len(alts)],
+                                       r.resn, r.chain, r.num, r.icode, r.x + 700, r.y + 500, r.z - 300, elem="H"))
     return out
 
 
